@@ -163,6 +163,21 @@ def run_unit(unit, tier):
         found = LABEL.findall(ln)
         if found and cur_fn and not re.match(r'\s*(pub\s+)?(open\s+|closed\s+)?(spec|proof)\s+fn', ln):
             tmpl_pre.append((cur_fn, found, ln.strip()[:600], i + 1))
+    # labelled ensures-clauses of template-level lemmas (`proof fn`: generated distinctness / wire-layout lemmas, hand-written specification lemmas)
+    tmpl_lemma_clauses = []
+    cur_pf = None
+    for i, ln in enumerate(gl):
+        o = g['origin'][i] if i < len(g['origin']) else {}
+        if o.get('kind') != 'tmpl':
+            continue
+        m = re.match(r'\s*(pub\s+)?(broadcast\s+)?proof\s+fn\s+([A-Za-z_][A-Za-z0-9_]*)', ln)
+        if m:
+            cur_pf = m.group(3)
+        elif re.search(r'\bfn\s+[A-Za-z_]', ln):
+            cur_pf = None
+        if cur_pf and LABEL.findall(ln) and not ln.lstrip().startswith('///'):
+            tmpl_lemma_clauses.append(dict(fn=cur_pf, labels=LABEL.findall(ln), text=ln.strip()[:300], line=i + 1))
+    out['tmpl_lemma_clauses'] = tmpl_lemma_clauses
     callee_clauses = []
     if tmpl_pre:
         by_fn_lines = {}
